@@ -29,6 +29,10 @@ pub enum Op {
     Read(u16),
     /// poll_read with a buffer at or beyond the 16-bit limits: 65536, 131072, 70000, 65537, 196608
     ReadBig(u8),
+    /// poll_read_vectored with slices of a and b bytes, optionally preceded / separated by empty
+    /// slices (bits 0, 1): the reported bytes fill the slices in order, nothing else is touched,
+    /// and 0 means end of stream only if some slice had room
+    ReadVectored(u16, u16, u8),
     /// poll_fill_buf, then consume min(k, available)
     Fill(u16),
     /// select the role's next input stream (ignored when there is none)
@@ -148,6 +152,31 @@ fn test(c: &Case) -> TestResult {
                         note_data(&mut delivered, &mut eof, active, &buf[..n], *cap > 0, &sm, oi)?;
                     },
                     Err(e) => vfail!("c09-read-error", "op {oi}: poll_read failed on well-formed input: {e}"),
+                }
+            },
+            Op::ReadVectored(a, b, pat) => {
+                used_read = true;
+                let mut bufs: Vec<Vec<u8>> = Vec::new();
+                if pat & 1 == 1 {
+                    bufs.push(Vec::new());
+                }
+                bufs.push(vec![0xEEu8; *a as usize % 700]);
+                if pat & 2 == 2 {
+                    bufs.push(Vec::new());
+                }
+                bufs.push(vec![0xEEu8; *b as usize % 700]);
+                let total: usize = bufs.iter().map(Vec::len).sum();
+                let r = {
+                    let mut slices: Vec<std::io::IoSliceMut<'_>> = bufs.iter_mut().map(|v| std::io::IoSliceMut::new(&mut v[..])).collect();
+                    d.run("poll_read_vectored", None, |cx| Pin::new(&mut req).poll_read_vectored(cx, &mut slices))?.unwrap()
+                };
+                match r {
+                    Ok(n) => {
+                        let flat: Vec<u8> = bufs.concat();
+                        vensure!(n <= total && flat[n..].iter().all(|&x| x == 0xEE), "c09-read-overrun", "op {oi}: poll_read_vectored reported {n} bytes but the slices behind them were touched (or n exceeds their {total} bytes)");
+                        note_data(&mut delivered, &mut eof, active, &flat[..n], total > 0, &sm, oi)?;
+                    },
+                    Err(e) => vfail!("c09-read-error", "op {oi}: poll_read_vectored failed on well-formed input: {e}"),
                 }
             },
             Op::Fill(k) => {
@@ -282,6 +311,7 @@ fn op() -> BoxedStrategy<Op> {
     prop_oneof![
         5 => prop_oneof![1 => Just(0u16), 3 => 1u16..=9, 3 => 1u16..=700, 1 => Just(u16::MAX)].prop_map(Op::Read),
         1 => any::<u8>().prop_map(Op::ReadBig),
+        1 => (prop_oneof![Just(0u16), 1u16..=9, 1u16..=699], prop_oneof![1u16..=9, 1u16..=699], 0u8..4).prop_map(|(a, b, p)| Op::ReadVectored(a, b, p)),
         5 => prop_oneof![1 => Just(0u16), 3 => 1u16..=9, 3 => 1u16..=700, 1 => Just(u16::MAX)].prop_map(Op::Fill),
         1 => Just(Op::Next),
         1 => prop::option::weighted(0.5, 0u8..4).prop_map(Op::Writeable),
